@@ -135,7 +135,23 @@ pub fn settle_exec(query: &Value, req: &mut Value) {
 /// rescore queries: exact scores with `min_score`, filtered weights, BM25 terms
 pub fn gen_rescore_query(rng: &mut Rng) -> Value {
   let inner = if rng.chance(1, 2) { json!({"type": "match_all"}) } else { json!({"type": "term", "field": "body", "value": WORDS[skew(rng, 4)]}) };
-  match rng.below(6) {
+  match rng.below(9) {
+    // the same term in two scoring clauses (two leaves) of the rescore query: rescore_hits has
+    // to score it once per leaf (/repo d465454), visible wherever the clauses are not just summed
+    6 => {
+      let a = WORDS[skew(rng, 3)];
+      json!({"type": "dis_max", "queries": [{"type": "term", "field": "body", "value": a, "boost": 2.0}, {"type": "term", "field": "body", "value": a}]})
+    }
+    7 => {
+      let a = WORDS[skew(rng, 3)];
+      let b = WORDS[skew(rng, WORDS.len())];
+      json!({"type": "bool", "should": [{"type": "term", "field": "body", "value": a, "boost": 2.0},
+        {"type": "dis_max", "queries": [{"type": "term", "field": "body", "value": a}, {"type": "term", "field": "body", "value": b}]}]})
+    }
+    8 => {
+      let a = WORDS[skew(rng, 3)];
+      json!({"type": "query_string", "query": format!("{a} body:{a}")})
+    }
     0 | 1 | 2 => {
       let mut q = json!({"type": "function_score", "query": inner,
         "functions": [{"type": "field_value_factor", "field": "s1", "factor": 1.0}], "boost_mode": "replace"});
@@ -625,4 +641,38 @@ pub fn value_close(a: &Value, b: &Value) -> bool {
     (Value::Object(x), Value::Object(y)) => x.len() == y.len() && x.iter().all(|(k, p)| y.get(k).map(|q| value_close(p, q)).unwrap_or(false)),
     _ => a == b,
   }
+}
+
+/// does a rescore query use one term in two scoring clauses (two leaves)?
+pub fn shared_scoring_term(q: &Value) -> bool {
+  fn collect(q: &Value, out: &mut Vec<String>) {
+    match q["type"].as_str() {
+      Some("term") => out.push(format!("{}:{}", q["field"].as_str().unwrap_or(""), q["value"].as_str().unwrap_or(""))),
+      Some("query_string") => {
+        for tok in q["query"].as_str().unwrap_or("").split_whitespace() {
+          out.push(if tok.contains(':') { tok.to_string() } else { format!("body:{tok}") });
+        }
+      }
+      Some("bool") => {
+        for k in ["must", "should"] {
+          for c in q[k].as_array().cloned().unwrap_or_default() {
+            collect(&c, out);
+          }
+        }
+      }
+      Some("dis_max") => {
+        for c in q["queries"].as_array().cloned().unwrap_or_default() {
+          collect(&c, out);
+        }
+      }
+      Some("function_score") => collect(&q["query"], out),
+      _ => {}
+    }
+  }
+  let mut v = Vec::new();
+  collect(q, &mut v);
+  let n = v.len();
+  v.sort();
+  v.dedup();
+  v.len() < n
 }
